@@ -55,6 +55,7 @@ var pkgDirs = []string{
 	"pkg/policy",
 	"pkg/galaxy",
 	"pkg/utils/iptables",
+	"pkg/ipam/cloudprovider",
 }
 
 type guard struct {
@@ -102,6 +103,9 @@ var trackedTypes = map[string]*typeSpec{
 		"namespaceLister": lk("once:policy.PolicyManager.podInformerOnce")},
 		others: &frozen},
 	"galaxy.Galaxy": {fields: map[string]guard{"netConf": frozen}},
+	// lazily initialised: written only inside init.Do, read only after a call that went through init.Do
+	"cloudprovider.grpcCloudProvider": {fields: map[string]guard{"client": lk("once:cloudprovider.grpcCloudProvider.init")},
+		others: &frozen},
 }
 
 // element locations: a local variable bound from an index / range of this field aliases the element
@@ -113,6 +117,7 @@ var lockFields = map[string]bool{
 	"floatingip.crdIpam.cacheLock": true, "schedulerplugin.FloatingIPPlugin.nodeSubnetLock": true,
 	"schedulerplugin.FloatingIPPlugin.dpLockPool": true, "schedulerplugin.FloatingIPPlugin.podLockPool": true,
 	"crd.crdCache.lock": true, "policy.PolicyManager.podInformerOnce": true,
+	"cloudprovider.grpcCloudProvider.init": true,
 }
 
 // functions whose result is a fresh (unpublished) pointer to a tracked type
@@ -134,6 +139,9 @@ var confined = map[string]string{
 var syncHO = map[string]bool{
 	"wait.Poll": true, "wait.PollInfinite": true, "wait.PollImmediate": true, "sort.Slice": true, "sort.SliceStable": true,
 }
+
+// higher-order callees that only STORE the closure (it runs later, on another goroutine)
+var asyncHO = map[string]bool{"grpc.WithDialer": true}
 
 // keyed lock wrappers: `defer recv.<name>(..)()`
 var keyedWrappers = map[string]bool{"lockPod": true, "LockDpPool": true, "LockPoolFunc": true}
@@ -226,6 +234,7 @@ type analysis struct {
 	summaries   map[string][][2]string // method id -> (field, kind) on receiver
 	pkgs        []*pkgInfo
 	events      []acqEvent        // every acquisition with the locks held just before it
+	ensurers    map[string]string // function id -> once pseudo lock its body unconditionally goes through (X.once.Do at top level)
 	poolField   map[string]string // keyed lock name -> pool field it locks
 	poolSite    map[string]string // pool field -> allocation site of the hashed mutex table
 	errs        []string
@@ -726,6 +735,23 @@ func (c *fctx) stmt(s ast.Stmt, st state) (state, bool) {
 			}
 		}
 		c.expr(v.X, st)
+		if call, ok := unparen(v.X).(*ast.CallExpr); ok {
+			// a call that went through `once.Do` (directly, or a function whose body starts with it) orders everything after it
+			// behind the initialisation: the rest of the function holds the once pseudo lock SHARED
+			once := ""
+			if sel, ok := unparen(call.Fun).(*ast.SelectorExpr); ok && sel.Sel.Name == "Do" {
+				once = c.onceName(call.Fun)
+			}
+			if id, _ := c.localFunc(call.Fun); id != "" && c.a.ensurers[id] != "" {
+				once = c.a.ensurers[id]
+			}
+			if once != "" {
+				if _, held0 := st[once]; !held0 {
+					st = st.clone()
+					st[once] = held{mode: "shared", deferred: true, site: -1}
+				}
+			}
+		}
 		return st, false
 	case *ast.DeferStmt:
 		call := v.Call
@@ -1307,6 +1333,8 @@ func (c *fctx) call(call *ast.CallExpr, st state, argsDone bool) {
 			inner := st.clone()
 			inner[c.onceName(fun)] = held{mode: "excl", deferred: true, site: -1}
 			c.inline(lit, inner)
+		case asyncHO[text]:
+			c.async(lit, "cb") // stored and called later, from another goroutine
 		default:
 			c.a.fail("%s: closure passed to unknown higher-order function %s", c.pos(call), text)
 		}
@@ -1457,6 +1485,28 @@ func (a *analysis) analysePkg(p *pkgInfo) {
 		})
 		sort.Slice(sum, func(i, j int) bool { return sum[i][0]+sum[i][1] < sum[j][0]+sum[j][1] })
 		a.summaries[d.id] = sum
+	}
+	// once-ensuring functions: a top-level statement of the body is `recv.<once>.Do(func)`
+	if a.ensurers == nil {
+		a.ensurers = map[string]string{}
+	}
+	for _, d := range decls {
+		c := &fctx{a: a, p: p, fn: d.id}
+		for _, st := range d.fd.Body.List {
+			es, ok := st.(*ast.ExprStmt)
+			if !ok {
+				continue
+			}
+			call, ok := unparen(es.X).(*ast.CallExpr)
+			if !ok {
+				continue
+			}
+			if sel, ok := unparen(call.Fun).(*ast.SelectorExpr); ok && sel.Sel.Name == "Do" {
+				if once := c.onceName(call.Fun); once != "" {
+					a.ensurers[d.id] = once
+				}
+			}
+		}
 	}
 	// pass 1: walk every function
 	for _, d := range decls {
@@ -2038,6 +2088,19 @@ func gen(repo string) (map[string]string, error) {
 	}
 	emitAcq("acqDirect", direct)
 	emitAcq("acqTrans", trans)
+	var lazy []string
+	for _, l := range lockNames {
+		if strings.HasPrefix(l, "once:") {
+			lazy = append(lazy, fmt.Sprint(lockID[l]))
+		}
+	}
+	fmt.Fprintf(&b, "/-- the pseudo locks of sync.Once values: a field guarded by one is lazily initialised -/\ndef lazyLocks : List Lock := [%s]\n\n", strings.Join(lazy, ", "))
+	var ens []string
+	for f, o := range a.ensurers {
+		ens = append(ens, f+" -> "+o)
+	}
+	sort.Strings(ens)
+	strList("onceEnsurers", ens)
 	b.WriteString("def acqEvents : List AcqEvent := [\n")
 	for i, ev := range a.events {
 		sep := ","
